@@ -224,6 +224,18 @@ def contract_stub(spec_getter):
                 args[va] = VSeq(to_z3(VList(rest), t), t.args[0])
         args.update(dict(zip(names, pos)))
         args.update(cx.kwargs)
+        # parameters the call leaves out take the (constant) default of the callee's real signature
+        if any(n not in args for n in spec.params):
+            try:
+                fn_ = extract.get_module(spec.module).get_function(spec.qualname)
+                ps_, ds_ = fn_.args.args, fn_.args.defaults
+                dmap = {a.arg: d for a, d in zip(ps_[len(ps_) - len(ds_):], ds_)} if ds_ else {}
+                dmap.update({a.arg: d for a, d in zip(fn_.args.kwonlyargs, fn_.args.kw_defaults) if d is not None})
+            except (Unsupported, KeyError):
+                dmap = {}
+            for n in spec.params:
+                if n not in args and isinstance(dmap.get(n), ast.Constant):
+                    args[n] = wrap_const(dmap[n].value)
         c0 = Ctx(ex, st, st, recv, args=args)
         if spec.requires is not None:
             cx.require('requires', spec.requires(c0))
